@@ -327,9 +327,9 @@ def run_utils(rep):
                 if int(val) != len(c[1]): rep.fail(kind="str_len-wrong", string=c[1], real=val)
                 lc.append(f"({cstr_of(c[1] + [0, 97, 98, 99, 0])}, {val})")
             else:
-                want = c[2].index(c[1]) if c[1] in c[2] else -1
-                if int(val) != want: rep.fail(kind="find_str-is-not-first-equal-name", name=c[1], table=c[2], real=val, expected=want)
-                fc.append("([" + "; ".join(cstr_of(x + [0, 119, 0]) for x in c[2]) + f"], {cstr_of(c[1] + [0, 122, 122, 0])}, {'None' if val == '-1' else 'Some ' + val})")
+                want = str(c[2].index(c[1])) if c[1] in c[2] else "T"
+                if val != want: rep.fail(kind="find_str-is-not-first-equal-name", name=c[1], table=c[2], real=val, expected=want)
+                fc.append("([" + "; ".join(cstr_of(x + [0, 119, 0]) for x in c[2]) + f"], {cstr_of(c[1] + [0, 122, 122, 0])}, {'None' if val == 'T' else 'Some ' + val})")
     except (ValueError, IndexError) as ex:
         rep.tie_broken(f"utils harness output could not be read ({ex})"); return 0
     def nm(h): return cstr_of([int(h[i:i + 2], 16) for i in range(0, len(h), 2)])
